@@ -2,4 +2,6 @@ SPECIFICATION TSpec
 CONSTANTS
   LegacyBreak = FALSE
   SwapIn = ""
+  ShallowSub = FALSE
+  IgnoreNs = FALSE
 CHECK_DEADLOCK FALSE
